@@ -19,6 +19,7 @@ import numpy as np
 from mc import ref
 
 PROPERTY = 'C07'
+GUARD = ['numqi.sim.clifford']  # argument-immutability oracle (mc.seams.ImmutabilityGuard)
 LEVEL = 'model_checking'
 RULE = ('state = event history on a real CliffordCircuit (append g on q / query / apply / export); stateless enumeration of all '
         'histories to the depth bound plus BFS closure of the Clifford group mod phase keyed by the reference unitary; '
